@@ -5,7 +5,7 @@ sys.path.insert(0, os.path.join(os.path.dirname(os.path.realpath(__file__)), "..
 import native
 
 PREFIX = {"h_scan_raw": b'const char *s = R"', "h_scan_quoted": b'const char *s = "', "h_scan_escape_sequence": b"char c = '\\",
-          "h_skip_digit_separator": b"int x = 1", "h_expand_defined_function": b"#if defined"}
+          "h_skip_digit_separator": b"int x = 1", "h_skip_c_comment": b"#if 0\n/*", "h_skip_cpp_comment": b"//", "h_expand_defined_function": b"#if defined"}
 
 
 def replay(ctx):
